@@ -65,7 +65,11 @@ def check(ctx):
     ctx.guard("C03-F", widths.rule_min_size_matches_shrink, "C03-F")
     ctx.guard("C03-F", widths.rule_estimate_merge, "C03-F")
     ctx.guard("C03-F", widths.rule_stacked_cells_full_width, "C03-F")
+    ctx.rule("C03-I", "buffer hand-over in WrappedBlock: flush_word returns Ok only after the pending word was moved out "
+             "(line.consume / hard wrap) or TaggedLine::is_empty(word) held; flush_line likewise for the line; flush and "
+             "into_lines run them in that order before the text is taken")
     ctx.guard("C03-H", rule_h)
+    ctx.guard("C03-I", rule_i)
     for rid, fn in (("C03-A", rule_a), ("C03-B", rule_b), ("C03-C", rule_c), ("C03-D", rule_d), ("C03-E", rule_e),
                     ("C03-G", rule_g)):
         ctx.guard(rid, fn)
@@ -108,6 +112,96 @@ def rule_h(ctx):
         ctx.check(vn in inplace, "C03-H", "insert_child:in-place:%s" % vn, ic.span, ic.id,
                   "%s selects its children by the kind %s, but insert_child wraps a %s into a Container when a marker or "
                   "generated content is attached to it: such a child is then dropped with its text" % (where, vn, vn))
+
+
+HANDOVER = (
+    # (function, buffer field, calls that move the buffer's contents on)
+    ("WrappedBlock::<T>::flush_word", "word", ("consume", "flush_word_hard_wrap")),
+    ("WrappedBlock::<T>::flush_line", "line", ("force_flush_line",)),
+)
+
+
+def rule_i(ctx):
+    """tables/drops_elements.txt discharges the destruction of a consumed block's word and line by 'flush() moved
+    them on'.  That holds when, in flush_word / flush_line, every path to a normal return either passes one of the
+    calls that move the buffer on, or takes the true edge of TaggedLine::is_empty(<that buffer>) — and no other test
+    (a width counter, a flag) can skip the move: a word made of zero-width characters has wordlen 0 but is not empty."""
+    F = ctx.facts
+    for fn, field, movers in HANDOVER:
+        b = F.one(fn)
+        def on_buffer(op):
+            f = direct_field(b, op)
+            return f is not None and ends(f[0], "WrappedBlock") and f[1] == field
+        mv = set()
+        for bb, t in b.calls(lambda cd, t: callee_method(t) in movers):
+            if callee_method(t) == "consume":
+                if len(t["args"]) > 1 and on_buffer(t["args"][1]):
+                    mv.add(bb)
+            else:
+                mv.add(bb)
+        ctx.floor("C03-I", "calls in %s that move self.%s on" % (fn.split("::")[-1], field), len(mv), len(movers))
+        def pred(truth, src, a, s):
+            return truth is True and src and src[0] == "call" and callee_method(src[1]) == "is_empty" and \
+                ends(callee_def(src[1]) or "", "TaggedLine::<T>::is_empty") and on_buffer(src[1]["args"][0])
+        cut = edges_where(b, pred)
+        ctx.floor("C03-I", "is_empty(self.%s) tests in %s" % (field, fn.split("::")[-1]), len({a for a, _s in cut}), 1)
+        seen, st = set(), [0]
+        while st:
+            x = st.pop()
+            if x in seen:
+                continue
+            seen.add(x)
+            if x in mv:
+                continue
+            for s in b.succ(x):
+                if (x, s) in cut or b.is_cleanup(s):
+                    continue
+                st.append(s)
+        # normal returns: the unit function returns; the Result one assigns Ok
+        bad = []
+        for x in sorted(seen):
+            if x in mv:
+                continue
+            isres = b.locals[0]["ty"].startswith("std::result::Result")
+            if isres:
+                if any(st_["k"] == "assign" and st_["lhs"]["l"] == 0 and (st_.get("rv") or {}).get("variant") == "Ok" for st_ in b.stmts(x)):
+                    bad.append(x)
+            elif b.term(x)["k"] == "return":
+                bad.append(x)
+        ctx.check(not bad, "C03-I", "%s:%s-moved-or-empty" % (fn.split("::")[-1], field), b.span, b.id,
+                  "%s can return normally with self.%s neither moved on (%s) nor found empty by TaggedLine::is_empty: "
+                  "the pending pieces are then dropped when the block is consumed (reachable normal exit: bb%s)"
+                  % (fn.split("::")[-1], field, " / ".join(movers), bad[:3]))
+    # flush = flush_word; flush_line, in this order, on the normal path; into_lines flushes before taking the text
+    fl = F.one("WrappedBlock::<T>::flush")
+    fw = fl.calls(lambda cd, t: ends(cd, "WrappedBlock::<T>::flush_word"))
+    fline = fl.calls(lambda cd, t: ends(cd, "WrappedBlock::<T>::flush_line"))
+    okc = len(fw) == 1 and len(fline) == 1 and fl.dominates(fw[0][0], fline[0][0]) and \
+        all(fl.dominates(fline[0][0], x) for x in fl.reachable() for st_ in fl.stmts(x)
+            if st_["k"] == "assign" and st_["lhs"]["l"] == 0 and (st_.get("rv") or {}).get("variant") == "Ok")
+    ctx.check(okc, "C03-I", "flush:word-then-line", fl.span, fl.id,
+              "flush must call flush_word and then flush_line on every path that returns Ok")
+    il = F.one("WrappedBlock::<T>::into_lines")
+    fc = il.calls(lambda cd, t: ends(cd, "WrappedBlock::<T>::flush"))
+    reads = [x for x in il.reachable() for st_ in il.stmts(x) if st_["k"] == "assign" and
+             any(ends(o, "WrappedBlock") and n == "text" for o, n in _rv_fields(st_.get("rv") or {}))]
+    ctx.floor("C03-I", "reads of self.text in into_lines", len(reads), 1)
+    ctx.check(len(fc) == 1 and all(il.dominates(fc[0][0], x) and x != fc[0][0] for x in reads), "C03-I",
+              "into_lines:flush-before-text", il.span, il.id, "into_lines must flush before it takes self.text")
+
+
+def _rv_fields(rv):
+    out = []
+    for k in ("use", "ref", "cast"):
+        v = rv.get(k)
+        pl = op_place(v) if k != "ref" else v
+        if isinstance(pl, dict) and "p" in pl:
+            out += [(e["o"], e["n"]) for e in pl["p"] if isinstance(e, dict) and "f" in e]
+    for o in rv.get("ops", []) or []:
+        pl = op_place(o)
+        if pl:
+            out += [(e["o"], e["n"]) for e in pl["p"] if isinstance(e, dict) and "f" in e]
+    return out
 
 
 def in_build(b):
